@@ -1,5 +1,4 @@
 import MobiusModel.PathAlg
-import MobiusModel.Wire
 /-!
   PathStr: the *string level* of the path algebra (DESIGN §6.6).
 
@@ -31,6 +30,17 @@ theorem splitSlash_ne_nil (s : Bytes) : splitSlash s ≠ [] := by
 theorem splitSlash_slash (b : Bytes) : splitSlash (slash :: b) = [] :: splitSlash b := by
   rw [splitSlash]; simp
 
+/-- The non-slash branch of `splitSlash`. -/
+def consHead (x : UInt8) : List Comp → List Comp
+  | [] => [[x]]
+  | c :: cs => (x :: c) :: cs
+
+theorem splitSlash_cons_ne (x : UInt8) (a : Bytes) (hx : x ≠ slash) :
+    splitSlash (x :: a) = consHead x (splitSlash a) := by
+  rw [splitSlash]
+  simp only [hx, if_false]
+  cases splitSlash a <;> rfl
+
 theorem splitSlash_append (a b : Bytes) :
     splitSlash (a ++ slash :: b) = splitSlash a ++ splitSlash b := by
   induction a with
@@ -39,16 +49,10 @@ theorem splitSlash_append (a b : Bytes) :
     by_cases hx : x = slash
     · subst hx
       simp only [List.cons_append, splitSlash_slash, ih]
-    · have e1 : splitSlash (x :: a ++ slash :: b) =
-          (match splitSlash (a ++ slash :: b) with | [] => [[x]] | c :: cs => (x :: c) :: cs) := by
-        rw [List.cons_append, splitSlash]; simp [hx]
-      have e2 : splitSlash (x :: a) =
-          (match splitSlash a with | [] => [[x]] | c :: cs => (x :: c) :: cs) := by
-        rw [splitSlash]; simp [hx]
-      rw [e1, e2, ih]
+    · rw [List.cons_append, splitSlash_cons_ne x _ hx, splitSlash_cons_ne x a hx, ih]
       cases h : splitSlash a with
       | nil => exact absurd h (splitSlash_ne_nil a)
-      | cons c cs => simp
+      | cons c cs => simp [consHead]
 
 theorem splitSlash_noslash (c : Comp) (h : slash ∉ c) : splitSlash c = [c] := by
   induction c with
@@ -130,22 +134,25 @@ theorem cleanStr_rooted (s : Bytes) : cleanStr (slash :: s) = renderAbs ((splitS
 
 /-- The relative cleaner followed by a rooted join is the rooted cleaner (`Join("/", Join(segs…))` =
     rooted clean of all segments): the kept `..` are dropped at the root. -/
-theorem relStep_step (cs : List Comp) (k : Nat) (st : List Comp) :
-    (cs.foldl relStep (k, st)).2 = cs.foldl step st := by
-  induction cs generalizing k st with
+theorem relStep_snd (p : Nat × List Comp) (c : Comp) : (relStep p c).2 = step p.2 c := by
+  unfold relStep step
+  by_cases h1 : c = [] ∨ c = dot
+  · simp only [h1, if_true]
+  · simp only [h1, if_false]
+    by_cases h2 : c = dotdot
+    · simp only [h2, if_true]
+      by_cases h3 : p.2 = []
+      · simp [h3]
+      · simp [h3]
+    · simp only [h2, if_false]
+
+theorem relStep_step (cs : List Comp) (p : Nat × List Comp) :
+    (cs.foldl relStep p).2 = cs.foldl step p.2 := by
+  induction cs generalizing p with
   | nil => rfl
   | cons c cs ih =>
     simp only [List.foldl_cons]
-    unfold relStep step
-    by_cases h1 : c = [] ∨ c = dot
-    · simp only [h1, if_true]; exact ih k st
-    · simp only [h1, if_false]
-      by_cases h2 : c = dotdot
-      · simp only [h2, if_true]
-        by_cases h3 : st = []
-        · subst h3; simp only [if_true]; simpa using ih (k + 1) []
-        · simp only [h3, if_false]; exact ih k st.dropLast
-      · simp only [h2, if_false]; exact ih k (st ++ [c])
+    rw [ih (relStep p c), relStep_snd]
 
 -- ---------------------------------------------------------------- ReadPath on strings
 
@@ -266,9 +273,9 @@ def highOK (t : Bytes) : Bool := !t.isEmpty && t.all (fun x => decide (128 ≤ x
 
 /-- Table fact (by evaluation of all 128 rows): a high byte decodes to a non-empty string of bytes
     ≥ 0x80 — never to `/`, `.`, NUL or any other ASCII byte. -/
-theorem highTable_ok : highTable.all highOK = true := by decide
+theorem highTable_ok : highTable.all highOK = true := by decide +kernel
 
-theorem highTable_length : highTable.length = 128 := by decide
+theorem highTable_length : highTable.length = 128 := by decide +kernel
 
 theorem replacement_ok : highOK replacement = true := by decide
 
